@@ -172,7 +172,67 @@ def check(prog: Program, tier: str) -> Result:
     res.floor("distinct_words", 8)
 
     _check_split(prog, res)
+    _check_sign_convention(prog, res)
     return res
+
+
+def _check_sign_convention(prog: Program, res: Result):
+    """R06.6: rejection = -x / 1000 for x < 0, extraction = x / 1000 for x >= 0, zero otherwise (W -> kW), so that
+    monthly_cl - monthly_hl is the month's net ground load in the rejection-positive convention"""
+    q = "ghedesigner.ground_loads.HybridLoad.split_heat_and_cool"
+    fi = prog.func(q)
+    res.analysed(q)
+    from ..paths import Engine, Hooks, State
+
+    comps = {}
+    for n in ast.walk(fi.node):
+        if isinstance(n, ast.Assign) and len(n.targets) == 1 and isinstance(n.targets[0], ast.Name) and isinstance(n.value, ast.ListComp):
+            comps[n.targets[0].id] = n
+    rets = [r for r in ast.walk(fi.node) if isinstance(r, ast.Return)]
+    if len(rets) != 1 or not isinstance(rets[0].value, ast.Tuple) or len(rets[0].value.elts) != 2:
+        raise AnalysisError(f"{q}: return (rejection, extraction) not found")
+    order = [ast.unparse(e) for e in rets[0].value.elts]
+    call = [n for n in ast.walk(prog.func("ghedesigner.ground_loads.HybridLoad.__init__").node) if isinstance(n, ast.Assign) and isinstance(n.value, ast.Call) and attr_chain(n.value.func) == "self.split_heat_and_cool"]
+    ok = len(call) == 1 and isinstance(call[0].targets[0], ast.Tuple) and [attr_chain(e) for e in call[0].targets[0].elts] == ["self.hourly_rejection_loads", "self.hourly_extraction_loads"]
+    res.ob("R06.6", "the constructor binds (hourly_rejection_loads, hourly_extraction_loads) = split_heat_and_cool(raw loads)", ok, prog.loc(fi, fi.node))
+    if not ok:
+        res.violation("R06.6", "split-binding", prog.loc(fi, fi.node), q, "the two series returned by split_heat_and_cool are not bound to (rejection, extraction) in that order")
+    eng = Engine(prog, fi, Hooks())
+    X = Rat.atom("x")
+    want = {0: ("rejection", -X / Rat.const(1000), "-"), 1: ("extraction", X / Rat.const(1000), "+0")}
+    for pos, (label, val, dom) in want.items():
+        c = comps.get(order[pos])
+        if c is None or len(c.value.generators) != 1 or c.value.generators[0].ifs or not isinstance(c.value.elt, ast.IfExp):
+            raise AnalysisError(f"{q}: the {label} series is not an unfiltered conditional map of the raw loads")
+        g = c.value.generators[0]
+        st = State()
+        st.env[g.target.id] = X
+        cond = eng.cond(c.value.elt.test, st)
+        tv, fv = eng.eval(c.value.elt.body, st), eng.eval(c.value.elt.orelse, st)
+        # normalise to (value on the x<0 side, value on the x>=0 side)
+        if cond.kind != "cmp" or not cond.a.equals(X):
+            raise AnalysisError(f"{q}: sign test of the {label} series not understood: {cond.key()}")
+        neg_side = tv if cond.s <= frozenset("-") else (fv if cond.s >= frozenset("+") or cond.s == frozenset(("0", "+")) else None)
+        pos_side = fv if cond.s <= frozenset("-") else (tv if cond.s == frozenset(("0", "+")) or cond.s == frozenset("+") else None)
+        zero_incl_ok = cond.s in (frozenset("-"), frozenset(("0", "+")), frozenset("+"), frozenset(("-", "0")))
+
+        def absfree(v):
+            # |x| = -x on the x<0 side, x on the other
+            return v
+
+        ok = False
+        if neg_side is not None and pos_side is not None and isinstance(neg_side, Rat) and isinstance(pos_side, Rat):
+            a = sym.call("abs", [X])
+            ns = neg_side.subs({next(iter(a.atoms())): -X}) if a.atoms() & neg_side.all_atoms() else neg_side
+            ps_ = pos_side.subs({next(iter(a.atoms())): X}) if a.atoms() & pos_side.all_atoms() else pos_side
+            if label == "rejection":
+                ok = ns.equals(val) and ps_.is_zero()
+            else:
+                ok = ps_.equals(val) and ns.is_zero()
+        res.ob("R06.6", f"{label} series: {'-x/1000 for x < 0' if label == 'rejection' else 'x/1000 for x >= 0'}, 0 otherwise (W -> kW)", ok and zero_incl_ok, prog.loc(fi, c))
+        if not (ok and zero_incl_ok):
+            res.violation("R06.6", f"split|{label}|{norm_stmt(c)[:80]}", prog.loc(fi, c), q,
+                          f"the {label} series is '{norm_stmt(c.value)[:120]}': positive raw loads are extraction, negative ones rejection, both in kW - otherwise the month's net load is mis-signed or mis-scaled")
 
 
 def _check_split(prog: Program, res: Result):
@@ -319,6 +379,10 @@ VARIANTS = [
               "            hours_in_previous_months += HRS_IN_DAY * 30\n\n    def process_two_day_loads")], "R06.5"),
     Variant("month loop stops one month short", "break",
             [(G, "        for i in range(self.start_month, (self.end_month + 1)):", "        for i in range(self.start_month, self.end_month):")], "R06.0"),
+    Variant("rejection series keeps its negative sign", "break",
+            [(G, "hourly_rejection_loads = [abs(x) / 1000.0 if x < 0.0 else 0.0 for x in raw_loads]", "hourly_rejection_loads = [x / 1000.0 if x < 0.0 else 0.0 for x in raw_loads]")], "R06.6"),
+    Variant("extraction series not converted to kW", "break",
+            [(G, "hourly_extraction_loads = [x / 1000.0 if x >= 0.0 else 0.0 for x in raw_loads]", "hourly_extraction_loads = [x if x >= 0.0 else 0.0 for x in raw_loads]")], "R06.6"),
     Variant("algebraic rewrite of month_load: x - a - b + c -> x - (a + b) + c", "benign",
             [(G, "month_load = self.monthly_cl[i] - self.monthly_hl[i] - month_peak_cl + month_peak_hl",
               "month_load = self.monthly_cl[i] - (self.monthly_hl[i] + month_peak_cl) + month_peak_hl")]),
